@@ -68,9 +68,23 @@ int _vnacommon_spline_calc(int n, const double *x_vector,
     double *sp = NULL;  /* second derivative at x[i] */
 
     /*
-     * Special-case a single element.
+     * Special-case a single element (no segment) and two elements
+     * (one segment: the straight line between them).
      */
-    if (n < 2) {
+    if (n < 1) {
+	return 0;
+    }
+    if (n == 1) {
+	double h = x_vector[1] - x_vector[0];
+
+	if (h < MIN_DX) {
+	    /* error reported by caller */
+	    errno = EINVAL;
+	    return -1;
+	}
+	c_vector[0][B] = (y_vector[1] - y_vector[0]) / h;
+	c_vector[0][C] = 0.0;
+	c_vector[0][D] = 0.0;
 	return 0;
     }
 
@@ -184,13 +198,6 @@ double _vnacommon_spline_eval(int n, const double *x_vector,
     if (n < 1) {
 	errno = EINVAL;
 	return HUGE_VAL;
-    }
-
-    /*
-     * Special-case one element.
-     */
-    if (n == 1) {
-	return y_vector[0];
     }
 
     /*
